@@ -297,8 +297,20 @@ async def family_histories(rng, rounds):
         elif rnd > 1:
             rng.shuffle(order)
         rec, oref = execgen.Recorder(), [None, {"ctx": 1}]
-        eng = await execgen.build_engine(fs, fresh_schema_name("c15fam"), oref, rec)
-        for pos, i in enumerate(order + order[:8]):
+        import tartiflette
+        orig = tartiflette.create_engine
+        if rnd % 2 == 1:
+            # an engine that keeps no parsed document alive: nothing remembered about a freed document may be applied to
+            # the next one
+            async def patched(*a, **k):
+                k["query_cache_decorator"] = None
+                return await orig(*a, **k)
+            tartiflette.create_engine = patched
+        try:
+            eng = await execgen.build_engine(fs, fresh_schema_name("c15fam"), oref, rec)
+        finally:
+            tartiflette.create_engine = orig
+        for pos, i in enumerate(order + order[:8] + order + order[:8]):
             c = fam[i]
             oref[0] = execgen.Oracle(fs, c["oracle_seed"], 0.05, 0.08)
             try:
@@ -311,7 +323,8 @@ async def family_histories(rng, rounds):
             elif c16.canon(resp) != c16.canon(refs[i]):
                 problems.append({"what": "request #%d of the history answered differently from a fresh engine in a fresh interpreter" % pos,
                                  "query": c["query"], "variables": c["variables"], "answered": resp, "fresh": refs[i],
-                                 "history": [fam[j]["query"] for j in (order + order[:8])[:pos]][-12:]})
+                                 "query_cache": "disabled" if rnd % 2 == 1 else "default",
+                                 "history": [fam[j]["query"] for j in (order + order[:8] + order + order[:8])[:pos]][-12:]})
     return problems, n
 
 
